@@ -414,8 +414,12 @@ def gen_fix_world(rng: Rng, feats: Optional[dict] = None) -> dict:
     cfg_sections: dict[str, dict] = {"sqlfluff": root_core}
     if rng.chance(0.3):
         cfg_sections["sqlfluff:rules:references.consistent"] = {"force_enable": "True"}
+    f.setdefault("nested_templater", 0.0)
+    nested_tmpl = templater in ("placeholder", "jinja") and bool(f["nested_templater"]) and rng.chance(f["nested_templater"])
     if templater == "placeholder":
-        cfg_sections["sqlfluff:templater:placeholder"] = {"param_style": "colon"}
+        # (param_style and param_regex exclude each other and a nested file cannot unset a key: where
+        # directories bring their own pattern, the root states its colon style as a pattern too)
+        cfg_sections["sqlfluff:templater:placeholder"] = {"param_regex": r"(?<![:\w]):(?P<param_name>\w+)"} if nested_tmpl else {"param_style": "colon"}
     limits: dict[str, Any] = {}
     if f["size_limits"]:
         limits = gen_limits(rng)
@@ -532,6 +536,32 @@ def gen_fix_world(rng: Rng, feats: Optional[dict] = None) -> dict:
             m.update({"encoding": "utf-8", "newline": "lf", "chars": len(text), "bytes": len(data)})
             files[rel] = {"b64": b64(data), "mode": 0o644}
             meta[rel] = m
+    if nested_tmpl:
+        # templater SETTINGS that differ per directory (nested config files): two directories, each with
+        # its own placeholder pattern / its own value of one Jinja context variable, and in each one or two
+        # files whose result depends on it. Whatever a templater (one instance per Linter) keeps from the
+        # first file's settings meets a file with other settings.
+        if templater == "placeholder":
+            variants = [(r"__(?P<param_name>[\w_]+)__", "SELECT a, b\nFROM __tbl__\nWHERE a > 1\n"),
+                        (r"\$\{(?P<param_name>\w+)\}", "SELECT a, b\nFROM ${tbl}\nWHERE a > 1\n"),
+                        (r"<<(?P<param_name>\w+)>>", "SELECT a, b\nFROM <<tbl>>\nWHERE a > 1\n"),
+                        (r"@(?P<param_name>\w+)@", "SELECT a, b\nFROM @tbl@\nWHERE a > 1\n")]
+            picks = rng.sample(variants, 2)
+            secs = [({"sqlfluff:templater:placeholder": {"param_regex": rx}}, body) for rx, body in picks]
+        else:
+            body = "SELECT a\n{{ vsim_kw }} tbl\nWHERE a > 1\n"
+            vals = rng.sample(["from", "FROM", "From"], 2)
+            secs = [({"sqlfluff:templater:jinja:context": {"vsim_kw": v}}, body) for v in vals]
+        free = [x for x in ["n1", "n2", "n3", "n4", "n5"]]
+        for (sec, body), nd in zip(secs, ["nt_a", "nt_b"]):
+            dirs.append(nd)
+            files["proj/%s/.sqlfluff" % nd] = {"b64": b64(ini(sec)), "mode": 0o644}
+            for _ in range(rng.randint(1, 2)):
+                text = body if rng.chance(0.6) else body.replace("a, b", "a,b").replace("SELECT a\n", "SELECT  a\n")
+                rel = "proj/%s/%s.sql" % (nd, free.pop(0))
+                data = text.encode("utf-8")
+                files[rel] = {"b64": b64(data), "mode": 0o644}
+                meta[rel] = {"kind": "nested_tmpl", "inj": [], "dir": nd, "encoding": "utf-8", "newline": "lf", "chars": len(text), "bytes": len(data)}
     if f["ignore_file"] and rng.chance(0.3):
         sqls = sorted(meta)
         victim = rng.choice(sqls)
